@@ -220,6 +220,8 @@ def run(ctx):
     glue.copied_matchers(ctx)
     glue.deep_tree_state(ctx)
     glue.dirfd_dangling(ctx)
+    from props import clauses
+    clauses.mixed_globstars(ctx)
     return ctx.finish(RULE)
 
 
